@@ -57,11 +57,13 @@ func (e *Engine) generate(completions Values) {
 func (e *Engine) setPrefix(completions Values) {
 	switch completions.PREFIX {
 	case "":
+		// Nothing before the cursor: nothing to complete from.
+		if e.cursor.Pos() == 0 {
+			return
+		}
+
 		// Select the character just before the cursor.
 		cpos := e.cursor.Pos() - 1
-		if cpos < 0 {
-			cpos = 0
-		}
 
 		bpos, _ := e.line.SelectBlankWord(cpos)
 
